@@ -5,6 +5,7 @@
 (* on the simulated wire, callbacks), plus history variables kept here.         *)
 EXTENDS Naturals, Integers, Sequences, FiniteSets, TLC, Json
 CONSTANTS D, F, H,     \* disconnected / failed timeouts, transaction lifetime of the run (ms)
+          RFilter,     \* per agent: remote addresses its remote IP filter rejects
           DD, DC,      \* per agent: disconnected timeout in effect / disconnected part of the initial checking deadline (lite defaults differ)
           TraceFile, NatMap, Reach, LocA, LocB, Lite, CheckPrio, MaxReq,
           Check        \* names of the predicates this run judges
@@ -233,6 +234,12 @@ C06_PairsFromCurrent == \A a \in Agents : \A p \in Rng(cur[a].pairs) : p.l \in R
 C06_SelListed == \A a \in Agents : cur[a].sel # 0 => (cur[a].selListed /\ \E p \in Rng(cur[a].pairs) : p.id = cur[a].sel)
 C06_IdStable == \A a \in Agents : \A x, y \in idmap[a] : (x[1] = y[1] /\ x[2] = y[2]) => x = y
 C06_RemotesDeduped == \A a \in Agents : \A i, j \in 1..Len(cur[a].remotes) : i # j => cur[a].remotes[i].addr # cur[a].remotes[j].addr
+\* remote candidates never include addresses rejected by the remote IP filter (peer-reflexive discoveries included) nor TCP-active
+\* candidates; a check from a rejected source changes nothing and is not answered
+C06_RemoteFilter == /\ \A a \in Agents : /\ \A r \in Rng(cur[a].remotes) : r.addr \notin RFilter[a]
+                                          /\ \A p \in Rng(cur[a].pairs) : p.r \notin RFilter[a]
+                                          /\ cur[a].tcpActive = 0
+                    /\ (IsDeliver /\ ev.m.kind = "req" /\ ev.m.src \in RFilter[Rcv]) => Inert
 Empty(o, a) == o[a].pairs = <<>> /\ o[a].locals = <<>> /\ o[a].remotes = <<>> /\ o[a].pend = <<>> /\ o[a].sel = 0
 C06_NoResidue == (ev.ev = "Restart" => Empty(cur, ev.ag))
                  /\ \A a \in Agents : (cur[a].conn = "Failed" /\ pre[a].conn # "Failed") => Empty(cur, a)
@@ -379,6 +386,7 @@ P(n) == CASE n = "C01_Mirror" -> C01_Mirror []
         n = "C06_SelListed" -> C06_SelListed []
         n = "C06_IdStable" -> C06_IdStable []
         n = "C06_RemotesDeduped" -> C06_RemotesDeduped []
+        n = "C06_RemoteFilter" -> C06_RemoteFilter []
         n = "C06_NoResidue" -> C06_NoResidue []
         n = "C06_NoResidueNew" -> C06_NoResidueNew []
         n = "C06_SupersessionPreserves" -> C06_SupersessionPreserves []
@@ -406,7 +414,7 @@ P(n) == CASE n = "C01_Mirror" -> C01_Mirror []
         n = "C07_ConnCounters" -> C07_ConnCounters []
         n = "C07_PairCounters" -> C07_PairCounters
 Report == \A n \in Check : P(n) \/ PrintT(<<"VIOL", n, l - 1>>)
-AllPredicates == {"C01_Mirror", "C01_Converges", "C01_NeverWithoutPath", "C02_BadRequestInert", "C02_BadResponseInert", "C02_ErrorInert", "C02_NonBindingInert", "C02_IndicationOnlyLiveness", "C02_UnmatchedResponse", "C02_MatchedOnly", "C02_StaleResponseInert", "C03_SelValidated", "C03_LiteSelectsOnNomination", "C03_NoUCFromControlled", "C03_LiteNeverRequests", "C03_NoDowngrade", "C05_Rule", "C05_OppositeAtEnd", "C06_UniqueIds", "C06_NoDupPairs", "C06_PairsFromCurrent", "C06_SelListed", "C06_IdStable", "C06_RemotesDeduped", "C06_NoResidue", "C06_NoResidueNew", "C06_SupersessionPreserves", "C04_TimingRule", "C04_CheckingDeadline", "C04_LifecycleStrict", "C04_Lifecycle", "C04_FC04Seen", "C04_NotifiedIsActual", "C04_SelWhileConnected", "C04_ReleasedOnFailed", "C20_AcceptMonotone", "C20_StaleIgnored", "C20_SwitchOnValid", "C20_SwitchWhenValidated", "C20_ControllingKeepsNewest", "C20_QuiescentAgreement", "C20_ValueOnWire", "C20_OnlyControllingEnabled", "C07_WriteRoute", "C07_StunShapedConsistent", "C07_NoSTUNWrite", "C07_ReadOnlyKnown", "C07_DataInert", "C07_ConnCounters", "C07_PairCounters"}
+AllPredicates == {"C01_Mirror", "C01_Converges", "C01_NeverWithoutPath", "C02_BadRequestInert", "C02_BadResponseInert", "C02_ErrorInert", "C02_NonBindingInert", "C02_IndicationOnlyLiveness", "C02_UnmatchedResponse", "C02_MatchedOnly", "C02_StaleResponseInert", "C03_SelValidated", "C03_LiteSelectsOnNomination", "C03_NoUCFromControlled", "C03_LiteNeverRequests", "C03_NoDowngrade", "C05_Rule", "C05_OppositeAtEnd", "C06_UniqueIds", "C06_NoDupPairs", "C06_PairsFromCurrent", "C06_SelListed", "C06_IdStable", "C06_RemotesDeduped", "C06_RemoteFilter", "C06_NoResidue", "C06_NoResidueNew", "C06_SupersessionPreserves", "C04_TimingRule", "C04_CheckingDeadline", "C04_LifecycleStrict", "C04_Lifecycle", "C04_FC04Seen", "C04_NotifiedIsActual", "C04_SelWhileConnected", "C04_ReleasedOnFailed", "C20_AcceptMonotone", "C20_StaleIgnored", "C20_SwitchOnValid", "C20_SwitchWhenValidated", "C20_ControllingKeepsNewest", "C20_QuiescentAgreement", "C20_ValueOnWire", "C20_OnlyControllingEnabled", "C07_WriteRoute", "C07_StunShapedConsistent", "C07_NoSTUNWrite", "C07_ReadOnlyKnown", "C07_DataInert", "C07_ConnCounters", "C07_PairCounters"}
 Done == IF TLCGet("stats").diameter = Len(Tr) THEN TRUE
         ELSE Print(<<"MONITOR_STOPPED_AT", TLCGet("stats").diameter, Len(Tr)>>, FALSE)
 ====
